@@ -70,6 +70,13 @@ CHECKS = {
         technique="deterministic simulation with the read-before-write (poison) monitor + enumerated placement cases compiled by the real compiler and simulated with all paths forced",
         ref="6/C08",
     ),
+    "C07": dict(
+        level="exploration",
+        text="Placement workload: 49 hand-written placements of the writers / readers of an object across contexts of every kind (two sequential, sequential + concurrent, two concurrent, whole / slice / bit / element / typed-view targets, ^= and .next forms, always-expressions, sub-entity instance outputs incl. two instances and one instance with two outputs, input ports at top level and inside a sub-entity, variables and intermediates shared between contexts, reset interplay). Placements with more than one writer must be rejected by the compiler; accepted designs are elaborated in VSIM (static driver map per scalar sub-element, process variables confined to their process) and simulated 40 clocks with a reset pulse under seeded stimulus and process order with the dynamic driver monitor (a conflict that only shows when both drivers are active).",
+        note="Trusted: the placement catalogue and its expected outcomes (counted from the statement), VSIM's driver bookkeeping. Unexpected rejections are counted, not flagged.",
+        technique="enumerated writer placements compiled by the real compiler; deterministic simulation of accepted designs with static + dynamic driver monitors",
+        ref="6/C07",
+    ),
 }
 
 NOT_APPLICABLE = {
